@@ -18,7 +18,7 @@ ALIASES = {
 }
 
 BUILTINS = ('len', 'range', 'abs', 'isinstance', 'enumerate', 'list', 'set', 'int', 'float', 'iter', 'str',
-            'print', 'tuple', 'min', 'max', 'sum', 'zip', 'object', 'type', 'hasattr', 'getattr', 'bool', 'sorted',
+            'print', 'tuple', 'min', 'max', 'sum', 'zip', 'object', 'type', 'hasattr', 'getattr', 'id', 'bool', 'sorted',
             'ValueError', 'TypeError', 'KeyError', 'NotImplementedError', 'AssertionError', 'ImportError',
             'DeprecationWarning', 'Exception', 'dict')
 
@@ -456,7 +456,9 @@ def sp_next_fast_len(ip, args, kwargs, node):
 
 
 def sp_root(ip, args, kwargs, node):
-    f = args[0]
+    f = args[0] if args else kwargs.get('fun')
+    if f is None:
+        raise Raised('TypeError', 'root() missing the function argument', ip.loc(node))
     x0 = args[1] if len(args) > 1 else kwargs.get('x0')
     ip.sym_kind['root_iter'] = 'curve'
     xi = Arr(N.sym('root_iter'), 'root-callback-arg', ip)
@@ -474,6 +476,19 @@ def sp_root(ip, args, kwargs, node):
 def deepcopy(ip, args, kwargs, node):
     memo = {}
     _copy_native.ip = ip
+    seed = args[1] if len(args) > 1 else kwargs.get('memo')
+    if seed is not None and not (isinstance(seed, Const) and seed.v is None):
+        # deepcopy(x, {id(y): y}): y is "already copied" -- the result shares y with the original
+        if not (isinstance(seed, Obj) and seed.cls == 'dict'):
+            raise Unsupported('deepcopy with a memo that is not a dict literal', node)
+        for k_, v_ in seed.attrs['items'].items():
+            if isinstance(k_, tuple) and len(k_) == 3 and k_[0] == 'id':
+                if k_[1] == 'obj':
+                    memo[k_[2]] = v_
+                else:
+                    memo[('arr', k_[2])] = v_
+            else:
+                raise Unsupported('deepcopy memo key is not an id()', node)
 
     def cp(v):
         if isinstance(v, Obj):
@@ -636,6 +651,39 @@ def b_abs(ip, args, kwargs, node):
     return ip.make_result(P.lift1(f, t), k)
 
 
+def b_set(ip, args, kwargs, node):
+    """set(iterable of numbers / constants): duplicates removed by term equality (two different symbolic lengths are
+    different elements: the rule that calls this enumerates the equal and the unequal case explicitly)"""
+    if not args:
+        return Seq([], 'set')
+    x = args[0]
+    if not isinstance(x, Seq):
+        raise Unsupported('set() of %r' % (x,), node)
+    out = []
+    for v in x.items:
+        dup = False
+        for w in out:
+            if isinstance(v, Const) and isinstance(w, Const):
+                dup = v.v == w.v
+            elif ip.is_numeric(v) and ip.is_numeric(w):
+                tv, tw = ip.term_of(v, node)[0], ip.term_of(w, node)[0]
+                dup = not P.is_pw(tv) and not P.is_pw(tw) and tv.equals(tw)
+            if dup:
+                break
+        if not dup:
+            out.append(v)
+    return Seq(out, 'set')
+
+
+def b_id(ip, args, kwargs, node):
+    x = args[0]
+    if isinstance(x, Obj):
+        return Const(('id', 'obj', x.oid))
+    if isinstance(x, Arr):
+        return Const(('id', 'arr', x.aid))
+    raise Unsupported('id() of %r' % (x,), node)
+
+
 def b_hasattr(ip, args, kwargs, node):
     o, nm = args
     if not (isinstance(nm, Const) and isinstance(nm.v, str)):
@@ -698,10 +746,14 @@ def types_iter(ip, types):
 def b_enumerate(ip, args, kwargs, node):
     x = args[0]
     if isinstance(x, Types):
+        part = getattr(x, 'partial', None)
+
         def make(ip2):
             l = ip2.new_label()
-            return Seq([Index(l.name), l]), {'labels': [l.name], 'kind': 'enumerate(types)'}
-        return LabelIter(make, 'enumerate(types)')
+            # over a slice of the type list the running index is the position *within the slice*, not in the list
+            return Seq([Index(l.name), l]), {'labels': [l.name], 'kind': 'enumerate(types)' if not part else 'enumerate(types-slice)',
+                                             'partial': part}
+        return LabelIter(make, 'enumerate(types)' if not part else 'enumerate(%s)' % part)
     if isinstance(x, Seq):
         return Seq([Seq([const_num(i), v]) for i, v in enumerate(x.items)], 'list')
     if isinstance(x, LabelIter):
@@ -709,7 +761,34 @@ def b_enumerate(ip, args, kwargs, node):
     raise Unsupported('enumerate(%r)' % (x,), node)
 
 
+def _concrete_items(ip, x, node):
+    if isinstance(x, Seq):
+        return list(x.items)
+    if isinstance(x, Obj) and x.cls == 'range':
+        lo, hi, st = x.attrs['lo'], x.attrs['hi'], x.attrs['step']
+        if all(t.is_const() for t in (lo, hi, st)):
+            return [const_num(i) for i in range(int(lo.const_value()), int(hi.const_value()), int(st.const_value()))]
+    return None
+
+
+def it_combinations(with_replacement):
+    def g(ip, args, kwargs, node):
+        if len(args) != 2 or not is_const_num(args[1]) or int(num_value(args[1])) != 2:
+            raise Unsupported('itertools.combinations with r != 2', node)
+        items = _concrete_items(ip, args[0], node)
+        if items is None:
+            raise Unsupported('itertools.combinations of a symbolic iterable', node)
+        import itertools as _it
+        f = _it.combinations_with_replacement if with_replacement else _it.combinations
+        return Seq([Seq(list(p_)) for p_ in f(items, 2)], 'list')
+    return g
+
+
 def it_product(ip, args, kwargs, node):
+    rep = kwargs.get('repeat')
+    if rep is not None and len(args) == 1 and is_const_num(rep) and int(num_value(rep)) == 2:
+        args = [args[0], args[0]]
+    args = [types_iter(ip, a) if isinstance(a, Types) else a for a in args]
     if len(args) == 2 and all(isinstance(a, LabelIter) for a in args):
         a, b = args
 
@@ -718,8 +797,12 @@ def it_product(ip, args, kwargs, node):
             e2, c2 = b.make(ip2)
             return Seq([e1, e2]), {'labels': c1['labels'] + c2['labels'], 'kind': 'product'}
         return LabelIter(make, 'product(%s,%s)' % (a.desc, b.desc))
+    conc = [_concrete_items(ip, a, node) for a in args]
+    if conc and all(c is not None for c in conc):
+        import itertools as _it
+        return Seq([Seq(list(p_)) for p_ in _it.product(*conc)], 'list')
     if len(args) == 2 and all(isinstance(a, Obj) and a.cls == 'range' for a in args):
-        raise Unsupported('product of ranges', node)
+        raise Unsupported('product of symbolic ranges', node)
     raise Unsupported('itertools.product of %r' % (args,), node)
 
 
@@ -833,10 +916,11 @@ CALLS = {
     'scipy.fftpack.next_fast_len': sp_next_fast_len, 'scipy.fft.next_fast_len': sp_next_fast_len,
     'scipy.optimize.root': sp_root,
     'copy.deepcopy': deepcopy, 'copy.copy': None,
-    'itertools.product': it_product,
+    'itertools.product': it_product, 'itertools.combinations': it_combinations(False),
+    'itertools.combinations_with_replacement': it_combinations(True),
     'warnings.warn': w_warn,
     'builtins.len': b_len, 'builtins.range': b_range, 'builtins.abs': b_abs,
-    'builtins.isinstance': b_isinstance, 'builtins.hasattr': b_hasattr, 'builtins.getattr': b_getattr, 'builtins.enumerate': b_enumerate, 'builtins.list': b_list,
+    'builtins.isinstance': b_isinstance, 'builtins.hasattr': b_hasattr, 'builtins.id': b_id, 'builtins.set': b_set, 'builtins.getattr': b_getattr, 'builtins.enumerate': b_enumerate, 'builtins.list': b_list,
     'builtins.tuple': b_list,
     'builtins.int': b_int, 'builtins.float': b_float, 'builtins.print': b_noop,
 }
@@ -878,6 +962,8 @@ def num_attr(ip, o, name, node):
         return Native('num.' + name, hook, o)
     if name == 'shape':
         return Obj('shape', {'arr': o})
+    if name == 'ndim':
+        return shape_len(ip, Obj('shape', {'arr': o}), node)
     if name == 'reshape':
         return Native('ndarray.reshape', nd_reshape, o)
     if name == 'copy':
